@@ -82,6 +82,8 @@ var trTargets = []trTarget{
 	{Pkg: evm + "app/antedl/cosmoslane", Recv: "CLVestingMessagesAuthorizationDecorator", Name: "AnteHandle", EraseObj: true},
 	{Pkg: evm + "app/antedl/duallane", Recv: "DLValidateBasicDecorator", Name: "AnteHandle", EraseObj: true},
 	{Pkg: evm + "x/vauth/keeper", Recv: "msgServer", Name: "SubmitProofExternalOwnedAccount", EraseObj: true},
+	{Pkg: evm + "app/antedl/duallane", Recv: "DLSigVerificationDecorator", Name: "AnteHandle", EraseObj: true},
+	{Pkg: evm + "app/antedl/duallane", Recv: "DLIncrementSequenceDecorator", Name: "AnteHandle", EraseObj: true},
 	{Pkg: evm + "indexer", Name: "TxIndexKey"},
 	{Pkg: evm + "indexer", Name: "parseBlockNumberFromKey"},
 	{Pkg: evm + "app/antedl/evmlane", Recv: "ELValidateBasicEoaDecorator", Name: "AnteHandle", EraseObj: true},
@@ -529,6 +531,14 @@ func (f *fnCtx) pathOf(e ast.Expr) (pathVal, []ast.Expr, bool) {
 						}
 						p.segs[len(p.segs)-1] += "_" + strings.Join(append([]string{ap.root.Name()}, ap.segs...), "_")
 						continue
+					}
+					// a value read straight from another object by a plain accessor (`ak.GetAccount(ctx, msg.GetFrom())`) names the
+					// accessor, like an object argument
+					if ak.k == kBytes || ak.k == kStr {
+						if ap, aargs, isPath := f.pathOf(a); isPath && aargs == nil && len(ap.segs) > 0 {
+							p.segs[len(p.segs)-1] += "_" + strings.Join(append([]string{ap.root.Name()}, ap.segs...), "_")
+							continue
+						}
 					}
 					if id, ok := a.(*ast.Ident); ok {
 						if o := f.info.ObjectOf(id); o != nil {
